@@ -564,6 +564,15 @@ class FunctionDefinition(TypedExpression):
                     any(argument_needs_multiline(arg) for arg in self.argument_set)
                     or len(self.argument_set) > 2
                 )
+            if not args_multiline and any(
+                isinstance(arg, Identifier)
+                and arg.default_value is not None
+                and "\n" in arg.default_value.rebuild(indent=0, inline=True)
+                for arg in self.argument_set
+            ):
+                # A default that renders on several lines (a one-line `let`
+                # does) makes the next parse read a multi-line argument set.
+                args_multiline = True
             args = []
             for i, arg in enumerate(self.argument_set):
                 is_last_argument: bool = i == len(self.argument_set) - 1
